@@ -1446,6 +1446,11 @@ mod gdata {
             let tuples: Vec<Tup> = (0..2 + k % 2).map(|j| Tup { tents: vec![(16384, None)], deltas: (0..npts).map(|i| ((i as i16 % 50) - 25 + j as i16, if i % 3 == 0 { 300 } else { -2 })).collect(), req: req.clone(), tol: None }).collect();
             check(s, rng, &[In { gid: 0, tuples }], 1, 2);
         }
+        // more than 255 tuples for one glyph (the 12-bit tuple count)
+        {
+            let tuples: Vec<Tup> = (0..300).map(|j| Tup { tents: vec![(16384 - j as i16, None)], deltas: vec![(j as i16 % 7, 1), (0, 0), (2, -1), (0, 0), (0, 0)], req: vec![true, j % 2 == 0, true, false, false], tol: None }).collect();
+            check(s, rng, &[In { gid: 0, tuples }], 1, 1);
+        }
         // input errors of Gvar::new
         let ok = Tup { tents: vec![(16384, None)], deltas: vec![(1, 1); 5], req: vec![true; 5], tol: None };
         let two_axes = Tup { tents: vec![(16384, None), (0, None)], deltas: vec![(1, 1); 5], req: vec![true; 5], tol: None };
@@ -1783,8 +1788,193 @@ mod apply {
             let axes = 1 + rng.below(3) as usize;
             let ng = 1 + rng.below(3) as usize;
             let mut pool = vec![];
-            let glyphs: Vec<Gl> = (0..ng).map(|_| super::e2e::gen_glyph(rng, axes, &mut pool, i % 60 == 59)).collect();
+            let mut glyphs: Vec<Gl> = (0..ng).map(|_| super::e2e::gen_glyph(rng, axes, &mut pool, i % 60 == 59)).collect();
+            // the first phantom point (left side bearing) moves too in a third of the glyphs: the
+            // drawn outline is shifted by its ROUNDED delta
+            for g in glyphs.iter_mut() { if rng.chance(1, 3) { let np = g.points().len(); for t in g.tuples.iter_mut() {
+                t.deltas[np] = (rng.range(-25, 25) as i16, 0); if rng.chance(1, 2) { t.req[np] = true; } } } }
             simple_cases(s, rng, &glyphs, axes);
+        }
+    }
+}
+
+mod composite {
+    //! Composite glyphs: component-offset deltas and phantom-point deltas.
+    //! skrifa `composite_glyph::<Fixed>` (verif hook) vs Model/GvarApply.lean `compositeGlyph`
+    //! (16.16, value exact); the drawn unscaled outline (FreeType style) vs `adjustComposite`
+    //! (component offsets + Fixed::to_i32(delta), USE_MY_METRICS, shift by the first phantom point).
+    //! Oracles: component / phantom deltas = sum_t S_t * d_t within k/2 ulp per listed delta (no
+    //! inference); drawn points within the three roundings of the exact expectation.
+    use super::*;
+    use super::e2e::{Gl, Tup};
+    use font_types::{F2Dot14, GlyphId, GlyphId16};
+    use read_fonts::tables::glyf::CurvePoint;
+    use read_fonts::types::Fixed;
+    use read_fonts::{FontData, FontRead, FontRef};
+    use skrifa::outline::verif_hooks::{composite_glyph_deltas_fixed, simple_glyph_deltas_fixed};
+    use skrifa::MetadataProvider;
+    use write_fonts::tables::glyf::{Anchor, Bbox, Component, ComponentFlags, CompositeGlyph, Contour, GlyfLocaBuilder, Glyph, SimpleGlyph, Transform};
+    use write_fonts::tables::gvar::{GlyphDelta, GlyphDeltas, GlyphVariations, Gvar, Tent};
+
+    #[derive(Clone, Debug)]
+    struct Cp { gid: usize, off: (i16, i16), use_my_metrics: bool }
+
+    fn bbox(pts: &[(i16, i16)]) -> Bbox {
+        Bbox { x_min: pts.iter().map(|p| p.0).min().unwrap(), y_min: pts.iter().map(|p| p.1).min().unwrap(),
+            x_max: pts.iter().map(|p| p.0).max().unwrap(), y_max: pts.iter().map(|p| p.1).max().unwrap() }
+    }
+
+    fn variations(gid: usize, tuples: &[Tup]) -> GlyphVariations {
+        let tuples = tuples.iter().map(|t| {
+            let tents = t.tents.iter().map(|(p, i)| Tent::new(F2Dot14::from_bits(*p), i.map(|(a, b)| (F2Dot14::from_bits(a), F2Dot14::from_bits(b))))).collect();
+            let deltas = t.deltas.iter().zip(&t.req).map(|(d, r)| GlyphDelta::new(d.0, d.1, *r)).collect();
+            GlyphDeltas::new(tents, deltas)
+        }).collect();
+        GlyphVariations::new(GlyphId::new(gid as u32), tuples)
+    }
+
+    fn build(simple: &[Gl], comps: &[Cp], ctuples: &[Tup], axes: usize) -> Result<Vec<u8>, String> {
+        use write_fonts::tables::{head::Head, hhea::Hhea, hmtx::Hmtx, hmtx::LongMetric, maxp::Maxp};
+        let mut b = GlyfLocaBuilder::new();
+        let mut vars = vec![];
+        let mut lsbs = vec![];
+        for (gid, g) in simple.iter().enumerate() {
+            let pts = g.points();
+            let sg = SimpleGlyph { bbox: bbox(&pts), contours: g.contours.iter().map(|c| Contour::from(c.iter().map(|p| CurvePoint::new(p.0, p.1, true)).collect::<Vec<_>>())).collect(), instructions: vec![] };
+            b.add_glyph(&Glyph::Simple(sg)).map_err(|e| e.to_string())?;
+            vars.push(variations(gid, &g.tuples));
+            lsbs.push(bbox(&pts).x_min);
+        }
+        let mut all: Vec<(i16, i16)> = vec![];
+        let mut cg: Option<CompositeGlyph> = None;
+        for c in comps {
+            let pts: Vec<(i16, i16)> = simple[c.gid].points().iter().map(|p| (p.0 + c.off.0, p.1 + c.off.1)).collect();
+            all.extend_from_slice(&pts);
+            let comp = Component::new(GlyphId16::new(c.gid as u16), Anchor::Offset { x: c.off.0, y: c.off.1 }, Transform::default(),
+                ComponentFlags { use_my_metrics: c.use_my_metrics, ..Default::default() });
+            match cg.as_mut() { None => cg = Some(CompositeGlyph::new(comp, bbox(&pts))), Some(g) => g.add_component(comp, bbox(&pts)) }
+        }
+        b.add_glyph(&Glyph::Composite(cg.unwrap())).map_err(|e| e.to_string())?;
+        vars.push(variations(simple.len(), ctuples));
+        lsbs.push(bbox(&all).x_min);
+        let (glyf, loca, fmt) = b.build();
+        let gvar = Gvar::new(vars, axes as u16).map_err(|e| e.to_string())?;
+        let n = lsbs.len() as u16;
+        let head = Head { units_per_em: 1000, index_to_loc_format: fmt as i16, ..Default::default() };
+        let maxp = Maxp { num_glyphs: n, max_points: Some(2000), max_contours: Some(100), max_composite_points: Some(4000), max_composite_contours: Some(200),
+            max_zones: Some(1), max_twilight_points: Some(0), max_storage: Some(0), max_function_defs: Some(0), max_instruction_defs: Some(0),
+            max_stack_elements: Some(0), max_size_of_instructions: Some(0), max_component_elements: Some(8), max_component_depth: Some(2) };
+        let hhea = Hhea { number_of_h_metrics: n, ..Default::default() };
+        let hmtx = Hmtx::new(lsbs.iter().map(|l| LongMetric::new(500, *l)).collect(), vec![]);
+        let mut fb = write_fonts::FontBuilder::new();
+        fb.add_table(&head).map_err(|e| e.to_string())?;
+        fb.add_table(&maxp).map_err(|e| e.to_string())?;
+        fb.add_table(&hhea).map_err(|e| e.to_string())?;
+        fb.add_table(&hmtx).map_err(|e| e.to_string())?;
+        fb.add_table(&glyf).map_err(|e| e.to_string())?;
+        fb.add_table(&loca).map_err(|e| e.to_string())?;
+        fb.add_table(&gvar).map_err(|e| e.to_string())?;
+        Ok(fb.build())
+    }
+
+    fn pts_str(v: &[(i32, i32)]) -> String { if v.is_empty() { "-".into() } else { join(&v.iter().map(|p| format!("{},{}", p.0, p.1)).collect::<Vec<_>>()) } }
+    fn ints<T: std::fmt::Display>(v: &[T]) -> String { if v.is_empty() { "-".into() } else { join(v) } }
+    fn be16(b: &[u8], o: usize) -> usize { ((b[o] as usize) << 8) | b[o + 1] as usize }
+    fn be32(b: &[u8], o: usize) -> usize { (be16(b, o) << 16) | be16(b, o + 2) }
+    fn to_i32(bits: i32) -> i32 { Fixed::from_bits(bits).to_i32() }
+
+    pub fn run(cfg: &Config, s: &mut Session, rng: &mut Rng) {
+        let n = if cfg.thorough() { 3000 } else { 150 };
+        for _ in 0..n {
+            let axes = 1 + rng.below(2) as usize;
+            let mut pool = vec![];
+            let nsimple = 1 + rng.below(3) as usize;
+            let simple: Vec<Gl> = (0..nsimple).map(|_| { let mut g = super::e2e::gen_glyph(rng, axes, &mut pool, false);
+                // phantom point 0 also moves (lsb delta) in half of the glyphs
+                if rng.chance(1, 2) { let np = g.points().len(); for t in g.tuples.iter_mut() { t.deltas[np] = (rng.range(-25, 25) as i16, 0); if rng.chance(1, 2) { t.req[np] = true; } } }
+                g }).collect();
+            let ncomp = 1 + rng.below(3) as usize;
+            let comps: Vec<Cp> = (0..ncomp).map(|_| Cp { gid: rng.below(nsimple as u64) as usize, off: (rng.range(-300, 300) as i16, rng.range(-300, 300) as i16), use_my_metrics: rng.chance(1, 4) }).collect();
+            let ntup = 1 + rng.below(3) as usize;
+            let ctuples: Vec<Tup> = (0..ntup).map(|_| {
+                let tents = if !pool.is_empty() && rng.chance(2, 3) { rng.pick(&pool).clone() } else { (0..axes).map(|_| (*rng.pick(&[16384i16, -16384, 8192]), None)).collect() };
+                let mag = *rng.pick(&[3i64, 40, 40, 900]);
+                let deltas: Vec<(i16, i16)> = (0..ncomp + 4).map(|k| if k >= ncomp + 2 { (0, 0) } else if rng.chance(1, 5) { (0, 0) } else { (rng.range(-mag, mag) as i16, if k >= ncomp { 0 } else { rng.range(-mag, mag) as i16 }) }).collect();
+                let req: Vec<bool> = match rng.below(4) { 0 => vec![true; ncomp + 4], 1 => vec![false; ncomp + 4], _ => (0..ncomp + 4).map(|_| rng.chance(1, 2)).collect() };
+                Tup { tents, deltas, req, tol: None } }).collect();
+            let desc = || format!("axes={axes} comps={comps:?} ctuples={ctuples:?} :: {}", super::e2e::describe(&simple, axes));
+            let data = match catch(|| build(&simple, &comps, &ctuples, axes)) { Ok(Ok(d)) => d, other => { s.oracle("composite-font-builds", false, desc, || format!("{:?}", other.map(|r| r.map(|_| ())))); continue } };
+            let font = FontRef::new(&data).unwrap();
+            let table = font.table_data(font_types::Tag::new(b"gvar")).unwrap().as_bytes().to_vec();
+            let gvar = read_fonts::tables::gvar::Gvar::read(FontData::new(&table)).unwrap();
+            let n_shared = be16(&table, 6);
+            let sh_off = be32(&table, 8);
+            let shared = table[sh_off.min(table.len())..(sh_off + n_shared * 2 * axes).min(table.len())].to_vec();
+            let cgid = simple.len();
+            let cdata: Vec<u8> = match gvar.data_for_gid(GlyphId::new(cgid as u32)) { Ok(Some(d)) => d.as_bytes().to_vec(), _ => vec![] };
+            // explicit sets of the composite's tuples, from the file
+            let mut explicit: Vec<Vec<bool>> = vec![];
+            if let Ok(Some(vd)) = gvar.glyph_variation_data(GlyphId::new(cgid as u32)) {
+                for t in vd.tuples() { let mut e = vec![false; ncomp + 4]; for d in t.deltas().take(ncomp + 12) { if let Some(x) = e.get_mut(d.position as usize) { *x = true; } } explicit.push(e); } }
+            let mut locs: Vec<Vec<i16>> = vec![vec![16384; axes], vec![-16384; axes]];
+            for t in &ctuples { locs.push(t.tents.iter().map(|x| x.0).collect()); locs.push(t.tents.iter().map(|x| (x.0 as i32 / 3) as i16).collect()); }
+            locs.push((0..axes).map(|_| rng.range(-16384, 16384) as i16).collect());
+            rng.shuffle(&mut locs);
+            locs.truncate(4);
+            let outlines = font.outline_glyphs();
+            for loc in &locs {
+                let cs: Vec<F2Dot14> = loc.iter().map(|c| F2Dot14::from_bits(*c)).collect();
+                let input = || format!("loc {loc:?} :: {}", desc());
+                // composite deltas: hook vs model
+                let real = catch(|| composite_glyph_deltas_fixed(&gvar, GlyphId::new(cgid as u32), &cs, ncomp + 4).map(|d| d.iter().map(|p| (p.x.to_bits(), p.y.to_bits())).collect::<Vec<_>>()));
+                let canon = match &real { Ok(Some(v)) => pts_str(v), Ok(None) => "err".into(), Err(_) => "trap".into() };
+                s.oracle("composite-glyph-deltas-ok", matches!(real, Ok(Some(_))), input, || canon.clone());
+                s.case("skrifa composite_glyph::<Fixed> (16.16 deltas)", format!("ap.composite {axes} {} {} {} | {}", if shared.is_empty() { "-".into() } else { hex(&shared) }, if cdata.is_empty() { "-".into() } else { hex(&cdata) }, ncomp + 4, ints(loc)), canon);
+                let Ok(Some(cdeltas)) = real else { continue };
+                // exact oracle: no inference, sum of S_t * d_t over the tuples that list the entry
+                if explicit.len() == ctuples.len() {
+                    for k in 0..ncomp + 4 { for axis in 0..2 {
+                        let (mut want, mut bound) = (0f64, 0f64);
+                        for (t, ex) in ctuples.iter().zip(&explicit) {
+                            let (sn, sd) = super::e2e::scalar(&t.tents, loc);
+                            if sn == 0 || !ex[k] { continue; }
+                            let d = if axis == 0 { t.deltas[k].0 } else { t.deltas[k].1 } as f64;
+                            let steps = t.tents.iter().zip(loc.iter()).filter(|((p, _), c)| *p != 0 && p != *c).count() as f64;
+                            want += 65536.0 * d * sn as f64 / sd as f64; bound += steps / 2.0 * d.abs();
+                        }
+                        let got = if axis == 0 { cdeltas[k].0 } else { cdeltas[k].1 } as f64;
+                        s.oracle("composite-deltas-are-scaled-listed-deltas", (got - want).abs() <= bound + 1e-3, input, || format!("entry {k} axis {axis}: got {got} want {want} bound {bound}"));
+                    } }
+                }
+                // children
+                let mut comp_req = vec![];
+                let mut ok = true;
+                let mut expect_cnt = 0usize;
+                for (i, c) in comps.iter().enumerate() {
+                    let g = &simple[c.gid];
+                    let mut points: Vec<(i32, i32)> = g.points().iter().map(|p| (p.0 as i32, p.1 as i32)).collect();
+                    let np = points.len();
+                    points.extend_from_slice(&[(0, 0), (500, 0), (0, 0), (0, 0)]);
+                    let ends: Vec<u16> = g.ends().iter().map(|e| *e as u16).collect();
+                    let pts: Vec<read_fonts::types::Point<i32>> = points.iter().map(|p| read_fonts::types::Point::new(p.0, p.1)).collect();
+                    let Ok(Some(d)) = catch(|| simple_glyph_deltas_fixed(&gvar, GlyphId::new(c.gid as u32), &cs, &pts, &ends).map(|d| d.iter().map(|p| (p.x.to_bits(), p.y.to_bits())).collect::<Vec<_>>())) else { ok = false; break };
+                    let adj: Vec<(i32, i32)> = (0..np).map(|k| (points[k].0 + to_i32(d[k].0), points[k].1 + to_i32(d[k].1))).collect();
+                    let pp0x = to_i32(d[np].0);
+                    expect_cnt += np;
+                    comp_req.push(format!("| C {} {},{} {} {}", c.use_my_metrics as u8, c.off.0, c.off.1, pp0x, pts_str(&adj)));
+                    let _ = i;
+                }
+                if !ok { s.count("composite:child-failed"); continue; }
+                let og = outlines.get(GlyphId::new(cgid as u32)).unwrap();
+                let mut pen = super::e2e::PtPen(vec![], 0);
+                let r = catch(|| og.draw(skrifa::outline::DrawSettings::unhinted(skrifa::instance::Size::unscaled(), skrifa::instance::LocationRef::new(&cs)).with_path_style(skrifa::outline::pen::PathStyle::FreeType), &mut pen).map(|_| ()).map_err(|e| e.to_string()));
+                s.oracle("composite-draw-ok", matches!(r, Ok(Ok(()))), input, || format!("{r:?}"));
+                if !matches!(r, Ok(Ok(()))) || pen.0.len() != expect_cnt || pen.1 != 0 { s.count("composite:draw-skipped"); continue; }
+                let drawn: Vec<(i32, i32)> = pen.0.iter().map(|p| (p.0 as i32, p.1 as i32)).collect();
+                s.count(&format!("composite:use-my-metrics~{}", comps.iter().filter(|c| c.use_my_metrics).count().min(2)));
+                s.case("draw composite (unscaled, FreeType style) = children + offset + to_i32(delta) - pp1.x",
+                    format!("ap.cadjust 0 | {} {}", pts_str(&cdeltas), comp_req.join(" ")), pts_str(&drawn));
+            }
         }
     }
 }
@@ -1796,6 +1986,7 @@ fn run(cfg: &Config, s: &mut Session) {
     reader::run(cfg, s, &mut rng);
     gdata::run(cfg, s, &mut rng);
     apply::run(cfg, s, &mut rng);
+    composite::run(cfg, s, &mut rng);
     e2e::run(cfg, s, &mut rng);
 }
 
